@@ -45,6 +45,30 @@ func verifPushGate(point string, in *pushNotify) {
 	}
 }
 
+var verifPushMaxBlock, verifPushMaxHeader int64 // bytes; 0 keeps pushMaxSize (1 MB)
+
+// VerifPushSetMaxSize sets the size limit of one posted batch for block subscribers and for
+// header subscribers (0 keeps the production limit pushMaxSize), so that ordinary small blocks
+// reach the place where a batch is cut by size. Other push types are not affected.
+func VerifPushSetMaxSize(blockMax, headerMax int) {
+	atomic.StoreInt64(&verifPushMaxBlock, int64(blockMax))
+	atomic.StoreInt64(&verifPushMaxHeader, int64(headerMax))
+}
+
+func verifPushMaxSize(subscribe *types.PushSubscribeReq, maxSize int) int {
+	var v int64
+	switch PushType(subscribe.Type) {
+	case PushBlock:
+		v = atomic.LoadInt64(&verifPushMaxBlock)
+	case PushBlockHeader:
+		v = atomic.LoadInt64(&verifPushMaxHeader)
+	}
+	if v > 0 {
+		return int(v)
+	}
+	return maxSize
+}
+
 var verifPushRespTimeout int64 // nanoseconds; 0 keeps the production value (10s)
 
 // VerifPushSetResponseTimeout sets how long the push client waits for a subscriber's answer, for
